@@ -17,6 +17,13 @@ from zope.testrunner import run
 run()
 """
 
+# the usual generated script (buildout / console-script wrappers): where the tests are is in the *defaults*, the
+# options come from sys.argv
+RUN_SCRIPT_DEFAULTS = """import os, sys
+from zope.testrunner import run
+run(defaults=["--path", os.path.dirname(os.path.abspath(__file__))])
+"""
+
 MODULE_SRC = """import wrt
 wrt.trace({"ev": "modimport", "m": __name__})
 wrt.fail_import(__name__, "import")
@@ -328,6 +335,22 @@ def shape_relpath_chdir(rng, w, o):
             t["body"]["chdir"] = True
 
 
+def shape_argv_clobber(rng, w, o):
+    """the runner started by a wrapper script (search path in the defaults, options in sys.argv), tests of
+    command-line code that empty sys.argv in place and do not put it back, and a layer that cannot be torn down so
+    that the rest is resumed in subprocesses after such tests ran in the main process"""
+    o["defaults_path"] = True
+    o["processes"] = 1
+    o.pop("relpath", None)
+    non_unit = sorted([k for k, l in enumerate(w["layers"]) if l["kind"] != "unit"], key=lambda k: layer_name(w, k))
+    if non_unit:
+        w["layers"][non_unit[0]]["tearDown"] = True
+        w["layers"][non_unit[0]]["tearDownFaults"] = [[999999, 2]]
+    for t in w["tests"]:
+        if rng.random() < 0.6 and not t.get("doctest"):
+            t["setUp"]["argv"] = True
+
+
 def shape_substring_names(rng, w, o, parallel=False):
     """layer names that contain one another (S, Sx, Sxx ...; as regular expressions each finds itself in the
     later ones), every layer with a test, run in subprocesses (-j N, or layers that cannot be torn down)"""
@@ -366,6 +389,8 @@ def materialize(world, d):
         json.dump(world, f)
     with open(os.path.join(d, "ztr_run.py"), "w") as f:
         f.write(RUN_SCRIPT)
+    with open(os.path.join(d, "ztr_run_d.py"), "w") as f:
+        f.write(RUN_SCRIPT_DEFAULTS)
     plain = set(world.get("plainDirs") or [])
     aliases = world.get("aliases") or {}
     for m in world["modules"]:
@@ -393,6 +418,8 @@ def cli_args(d, o, extra=()):
     spelling (--opt VALUE / --opt=VALUE, -jN / -j N): the runner re-parses its own arguments for children."""
     import random as _random
     head = [common.PY, os.path.join(d, "ztr_run.py"), "--path", "." if o.get("relpath") else d]
+    if o.get("defaults_path"):
+        head = [common.PY, os.path.join(d, "ztr_run_d.py")]
     rnd = _random.Random(o["argseed"]) if o.get("argseed") is not None else None
 
     def opt(name, value):
